@@ -387,6 +387,7 @@ package runtime
 //@   ensures m.status == old(m.status)
 //@   ensures m.trackCpu && m.status == StatusLive ==> m.stopLevel&HardStop == 0 && !spec.atLimit(m.usedResources.Cpu, m.hardLimits.Cpu)
 //@   ensures m.status == StatusLive && m.usedResources.Millis != old(m.usedResources.Millis) ==> resOK(m.usedResources.Millis, m.hardLimits.Millis)
+//@   ghost cpu += cpuAmount
 
 // Memory counter.
 //@ func (*runtimeContextManager).requireMem
@@ -415,6 +416,7 @@ package runtime
 //@   ensures !m.trackMem ==> m.usedResources.Memory == old(m.usedResources.Memory)
 //@   ensures m.status == old(m.status)
 //@   ensures m.trackMem && m.status == StatusLive ==> m.stopLevel&HardStop == 0 && !spec.atLimit(m.usedResources.Memory, m.hardLimits.Memory)
+//@   ghost mem += memAmount
 
 // Releasing never drives the counter below zero: callers must show they are
 // giving back no more than is accounted (otherwise the explicit panic fires).
@@ -494,7 +496,7 @@ package runtime
 // current context again.
 //@ macro restored(m) = (m.hardLimits == old(m.parent.hardLimits) && m.softLimits == old(m.parent.softLimits) && m.requiredFlags == old(m.parent.requiredFlags) && m.parent == old(m.parent.parent) && m.trackCpu == old(m.parent.trackCpu) && m.trackMem == old(m.parent.trackMem) && m.trackTime == old(m.parent.trackTime) && m.stopLevel == old(m.parent.stopLevel) && m.startTime == old(m.parent.startTime))
 //@ func (*runtimeContextManager).PopContext
-//@   prop C07
+//@   prop C07 C06 C05
 //@   arith bv
 //@   requires m != nil && m.parent != nil ==> m.parent != m
 //@   modifies all(m)
